@@ -44,6 +44,14 @@ type Schedule struct {
 	Rate   float64 `json:"rate"`             // fault probability per targeted call (ignored when Burst)
 	Burst  bool    `json:"burst,omitempty"`  // alternate runs of 2..9 faulted calls and 2..12 clean calls
 	Target string  `json:"target,omitempty"` // "" = every operation type, else one of list/open/write/delete
+	// LevelMask restricts the schedule to calls on these levels (bit n = level n; 0 = all levels).
+	LevelMask uint32 `json:"level_mask,omitempty"`
+	// PageArea makes download faults persistent and late: every OpenLTXFile of a
+	// targeted file succeeds but its reader breaks (error or premature EOF, by
+	// PRNG) at an absolute file offset chosen by PRNG BEHIND the LTX header, so
+	// headers can be decoded, no reconnect ever gets past the page area, and a
+	// reader's reconnect budget runs out.
+	PageArea bool `json:"page_area,omitempty"`
 }
 
 func (s Schedule) String() string {
@@ -51,10 +59,17 @@ func (s Schedule) String() string {
 	if t == "" {
 		t = "all"
 	}
-	if s.Burst {
-		return fmt.Sprintf("burst target=%s", t)
+	x := ""
+	if s.LevelMask != 0 {
+		x += fmt.Sprintf(" levelmask=%b", s.LevelMask)
 	}
-	return fmt.Sprintf("rate=%.2f target=%s", s.Rate, t)
+	if s.PageArea {
+		x += " persistent-page-area-download-faults"
+	}
+	if s.Burst {
+		return fmt.Sprintf("burst target=%s%s", t, x)
+	}
+	return fmt.Sprintf("rate=%.2f target=%s%s", s.Rate, t, x)
 }
 
 // Call is one record of the call log.
@@ -68,6 +83,7 @@ type Call struct {
 	N     int    `json:"n,omitempty"`   // number of files (delete)
 	Kind  string `json:"kind"`          // fault injected (KindOK = none)
 	Off   int64  `json:"off,omitempty"` // byte count k / offset o of the fault
+	Abs   bool   `json:"abs,omitempty"` // Off is an absolute file offset behind the LTX header (PageArea schedules)
 	Err   string `json:"err,omitempty"` // error returned to litestream ("" = nil)
 }
 
@@ -169,6 +185,13 @@ func (p *Proxy) Rebind(fc *file.ReplicaClient) *Proxy {
 	return p
 }
 
+// SetSchedule replaces the schedule (directed cases run in phases).
+func (p *Proxy) SetSchedule(s Schedule) {
+	p.mu.Lock()
+	defer p.mu.Unlock()
+	p.sched = s
+}
+
 // Enable switches fault injection on or off (off = the fault-free suffix).
 func (p *Proxy) Enable(on bool) {
 	p.mu.Lock()
@@ -244,7 +267,7 @@ func (p *Proxy) pick(op string, level int, min, max ltx.TXID, kinds ...string) (
 		c.Kind, c.Off = p.forced[0].kind, p.forced[0].off
 		p.forced = p.forced[1:]
 		p.faults[op+":"+c.Kind]++
-	} else if p.on && (p.sched.Target == "" || p.sched.Target == op) {
+	} else if p.on && (p.sched.Target == "" || p.sched.Target == op) && (p.sched.LevelMask == 0 || (level < 32 && p.sched.LevelMask&(1<<uint(level)) != 0)) {
 		hit := false
 		if p.sched.Burst {
 			if p.burstLeft <= 0 {
@@ -269,6 +292,11 @@ func (p *Proxy) pick(op string, level int, min, max ltx.TXID, kinds ...string) (
 				c.Off = int64(p.rng.Intn(600))
 			default:
 				c.Off = int64(p.rng.Intn(40000))
+			}
+			if p.sched.PageArea && op == OpOpen {
+				c.Kind = []string{KindMidStream, KindEarlyEOF}[p.rng.Intn(2)]
+				c.Off = int64(p.rng.Intn(1 << 20))
+				c.Abs = true
 			}
 			p.faults[op+":"+c.Kind]++
 		}
@@ -380,6 +408,25 @@ func (p *Proxy) OpenLTXFile(ctx context.Context, level int, minTXID, maxTXID ltx
 	}
 	// make sure the fault lies inside what remains of the file, so that it is
 	// really delivered (a limit beyond the end would be an ordinary read)
+	if c.Abs {
+		// absolute position behind the header, the same side of which every
+		// reconnect of this file ends up on
+		var fsz int64
+		if fi, e := os.Stat(fc.LTXFilePath(level, minTXID, maxTXID)); e == nil {
+			fsz = fi.Size()
+		}
+		abs := int64(ltx.HeaderSize)
+		if fsz > ltx.HeaderSize+1 {
+			abs += c.Off % (fsz - ltx.HeaderSize)
+		}
+		c.Off = abs
+		lim := abs - offset
+		if lim < 0 {
+			lim = 0
+		}
+		p.done(c, nil)
+		return &faultReader{p: p, c: c, rc: rc, limit: lim, eof: c.Kind == KindEarlyEOF}, nil
+	}
 	remain := size
 	if remain <= 0 {
 		if fi, e := os.Stat(fc.LTXFilePath(level, minTXID, maxTXID)); e == nil {
